@@ -131,6 +131,12 @@ class Evaluate(SxContract):
                 total = total + pi[ka] * c
         yield "score==sum pi W", prove.eq(out["score"], total)
 
+    def native_variants(self, env):
+        yield env
+        if self.needA:
+            for sc in (1e-9, 1e-18, 1e3):
+                yield {k: (v * sc if k.startswith("a_") else v) for k, v in env.items()}
+
     # ---- float replay on the real, unpatched code
     def native(self, env, inp):
         P = sx.to_float(inp["P"], env)
